@@ -23,11 +23,15 @@ LEVEL = {
  "C04": ("C01_encodeFinite + C07_alloc: a finite numeral is given a buffer iff the smallest sufficient width for its written digits and exponent is within the type's capacity, then encoded "
          "exactly; otherwise an overflow error — no third outcome in the model; saturating i32 exponent arithmetic proved not to change the decision (satI32 lemmas).",
          "The property leaves the gap 'written digits > p ≥ digits without leading zeros' to the implementation; the theorem says the code counts written digits."),
- "C05": ("Exploration with theorems for the API-level expect()s: every request of every property is executed under catch_unwind in debug (assertions+overflow checks) and release, "
-         "with features {}, {std}, {arbitrary-precision}; the model's only panic outcomes (infallible conversions, Bitstring32::to_f64, 'can always be parsed') are proved unreachable "
-         "(C13_b32_total and the C10/C12 infallibility theorems).",
-         "Index/slice/arithmetic panics inside the codec are NOT modelled in Lean (the model is total): for those C05 rests on the exploration, which is complete only on the enumerated finite sets. "
-         "Allocation failure and stack exhaustion are out of reach of any model here."),
+ "C05": ("Theorem C05x_no_panic: a *checked* model (lean/Decstr/Model/Exec*.lean) makes every panic site of the Rust code explicit — slice/array indexing and slicing, expect/unwrap, unreachable!, "
+         "debug_assert*!, integer overflow and u8 underflow, in both build profiles (`checks : Bool`) — and every public operation (try_parse_str, try_parse, try_from_le_bytes, the six classifiers, "
+         "Display, to_<int>, to_f32/f64 incl. the infallible Bitstring32::to_f64, from_<int>, from_f32/f64, max/min/min_positive) is proved to reach none of them for every input; C05x_closed: every value "
+         "the library produces is again a valid argument, so sequences of operations are covered. In addition every request of every property is executed under catch_unwind in debug and release with "
+         "features {}, {std}, {arbitrary-precision}.",
+         "The checked model's panic sites were transcribed by reading the Rust source; on a tree where the property holds no panic occurs, so the correspondence check cannot validate the *placement* of the "
+         "sites (three latent crate-internal panics the checked model predicts — empty digit chunk, ArrayTextBuf<N<2>, i32 exponent above 160 bits — were confirmed on the real crate in scratch tests). "
+         "Not modelled: usize +/* of length-bounded quantities, `as` casts, num-bigint/itoa/ryu internals, from_utf8 of ASCII literals, allocation failure, stack exhaustion. toText requires a decimal below ~950 MB. "
+         "from_f32/f64 relative to the formatter contract (C12)."),
  "C06": ("Theorems: the model's DecimalParser (state machine over flags/cursor with the str buffer's ranges) accepts exactly the language of Spec.parse and assigns every byte to the field "
          "the grammar assigns it, for every byte list; Spec.parse is validated against a declarative transcription of the regular expression (parse_iff_matches).", ""),
  "C07": ("Theorems C07_alloc, C07_bitstring_ok_iff, C07_big_total over all digit counts d ≥ 1 and all exponents e : Int: the allocated width is sufficient, at most 32 bits above the "
@@ -73,7 +77,7 @@ def main():
         i = p["id"]
         text, note = LEVEL[i]
         n = len(thms.get(i, {}).get("theorems", []))
-        cat = "proof" if n > 0 and i != "C05" else "exploration"   # C05: see its text — panics inside the codec are explored, not proved
+        cat = "proof" if n > 0 else "exploration"
         checks.append({
             "property_id": i,
             "quick_cmd": f"./check {i} quick",
@@ -84,7 +88,7 @@ def main():
             "level_claimed": {"category": cat, "text": text + f" [{n} theorems audited per run]", "design_ref": "DESIGN.md §10.4, §5 " + i},
             "level_note": COMMON_NOTE + note,
             "technique": ("Lean 4 machine-checked proof about a hand-written model + per-run model/implementation correspondence check with the Lean specification as oracle"
-                          if cat == "proof" else "catch_unwind exploration of every operation in 2 profiles x 3 feature sets, Lean specification as oracle, theorems for the API-level expect()s"),
+                          if i != "C05" else "Lean 4 machine-checked proof that a checked model with every Rust panic site explicit never panics + catch_unwind execution of every operation in 2 profiles x 3 feature sets"),
         })
     m = {
         "version": 1,
